@@ -6,7 +6,7 @@
 use crate::proto::{enc_view_sorted, hex, value_tokens};
 use crate::rng::Rng;
 use crate::Ctx;
-use liquid_core::model::{Object, Scalar, Value, ValueView};
+use liquid_core::model::{Object, Scalar, Value};
 use liquid_core::runtime::{GlobalFrame, Runtime, RuntimeBuilder, SandboxedStackFrame, StackFrame};
 use std::panic::{catch_unwind, AssertUnwindSafe};
 
@@ -139,6 +139,10 @@ fn all_ops() -> Vec<Op> {
         }
         // binding a name to nil is a binding too: it hides lower definitions
         ops.push(Op::SetGlobal(k.into(), Value::Nil));
+        // values of another kind that compare equal to what lower layers hold (1 == 1.0, true == any scalar)
+        for v in [Value::scalar(1.0f64), Value::scalar(2.0f64), Value::scalar(true)] {
+            ops.push(Op::SetGlobal(k.into(), v));
+        }
     }
     ops
 }
@@ -240,7 +244,7 @@ pub fn run(ctx: &mut Ctx) {
                 0..=2 => ops[rng.below(18)].clone(),
                 3 => Op::Global,
                 4 | 5 => Op::Pop,
-                _ => ops[20 + rng.below(8)].clone(),
+                _ => ops[20 + rng.below(ops.len() - 20)].clone(),
             };
             cur.push(op);
         }
